@@ -252,20 +252,20 @@ func verifBlackBox(capTok, evTok string) (result string) {
 			if _, err := conn.Write(append(append([]byte{}, turbotunnel.Token[:]...), id[:]...)); err != nil {
 				return "!write " + err.Error()
 			}
-			// wait until the handler's Set has happened (state of the ring changed); a Set
-			// that cannot change the state gets a grace period instead
-			deadline := time.Now().Add(3 * time.Second)
-			for verifSnapshot() == before {
-				if capacity == 0 {
-					break
+			// Wait until the handler's Set has happened (the ring changed). A Set that cannot
+			// change the ring (capacity 0; capacity 1 re-setting the same pair) commutes with
+			// everything that follows up to the next change, so a short grace period is enough.
+			same := hex.EncodeToString(id[:]) + verifAddrPrint(clientAddr(string(s))) + ";"
+			if capacity == 0 || (capacity == 1 && before.entries == same) {
+				time.Sleep(30 * time.Millisecond)
+			} else {
+				deadline := time.Now().Add(5 * time.Second)
+				for verifSnapshot() == before {
+					if time.Now().After(deadline) {
+						return "!set-not-observed"
+					}
+					time.Sleep(time.Millisecond)
 				}
-				if capacity == 1 && time.Now().After(deadline.Add(-2900*time.Millisecond)) {
-					break
-				}
-				if time.Now().After(deadline) {
-					return "!set-not-observed"
-				}
-				time.Sleep(time.Millisecond)
 			}
 			unused[id] = append(unused[id], conn)
 		case 'a':
